@@ -7,9 +7,18 @@
    10 x 10 / 10 agents included) and also boards whose target is on the grid but walled in.
    Positive part: the solvability certificate is sound by construction (the plan read off the generator's own solved
    board is played in the model and all agents must be connected at the end); it is run on every generated board.
-   UniformRandomGenerator (heads and targets on distinct cells): the model over recovered draws agrees with the
-   implementation and fresh_b / Physical_b hold on every generated state (correspondence-checked + example). *)
-Require Import JV.Base.Prelude JV.Base.JaxIndex JV.Base.Codec JV.Base.TimeStep JV.Model.Connector JV.Proofs.Connector.
+   UniformRandomGenerator is PROVED well-formed for ALL valid draws and all sizes: whenever the draw is 2N distinct flat
+   cells of the G x G board (what choice(G*G, (2, N), replace=False) returns), the generated state is Physical (one
+   entity per cell, POSITION k at agent k's stored head, TARGET k at its stored target, everything else EMPTY) and fresh
+   (step 0, every agent at its start, no PATH cell, heads and targets on 2N distinct cells, exactly 2N occupied cells).
+   The model over recovered draws is also compared with the implementation on every generated state. *)
+Require Import JV.Base.Prelude JV.Base.JaxIndex JV.Base.Codec JV.Base.TimeStep JV.Model.Connector JV.Proofs.Connector
+  JV.Proofs.Connector_Uniform.
+Theorem C10_Connector_uniform_wellformed c starts targets :
+  0 < gsz c -> uniform_draw_ok (gsz c) (nag c) starts targets = true ->
+  Physical c (gen_uniform (gsz c) (nag c) starts targets) /\ fresh_b c (gen_uniform (gsz c) (nag c) starts targets) = true.
+Proof. exact (gen_uniform_wellformed c starts targets). Qed.
+Print Assumptions C10_Connector_uniform_wellformed.
 Theorem C10_Connector_randomwalk_refuted :
   snd wit_init = true
   /\ forallb (fun x => x) (map2 (rw_choice_ok 3 (fst (fst wit_init))) (snd (fst wit_init)) [5; 7; -1]) = true
